@@ -97,6 +97,27 @@ fn main() {
             let soa = |a: &str, b: &str| Soa::new(nm(a), nm(b), Serial(serial), Ttl::from_secs(serial), Ttl::from_secs(1), Ttl::from_secs(u32::MAX), Ttl::from_secs(0));
             check("SOA", soa(s, names[0]), soa(&low(s), &low(names[0])), &mut n);
         }
+        check("MB", Mb::new(nm(s)), Mb::new(nm(&low(s))), &mut n);
+        check("MD", Md::new(nm(s)), Md::new(nm(&low(s))), &mut n);
+        check("MF", Mf::new(nm(s)), Mf::new(nm(&low(s))), &mut n);
+        check("MG", Mg::new(nm(s)), Mg::new(nm(&low(s))), &mut n);
+        check("MR", Mr::new(nm(s)), Mr::new(nm(&low(s))), &mut n);
+        // RFC 4034 6.2 lists MINFO, RP and NAPTR among the types whose embedded names are lower-cased
+        check("MINFO", Minfo::new(nm(s), nm(names[0])), Minfo::new(nm(&low(s)), nm(&low(names[0]))), &mut n);
+        check("RP", Rp::new(nm(s), nm(names[0])), Rp::new(nm(&low(s)), nm(&low(names[0]))), &mut n);
+        for (o, p) in [(0u16, 65535u16), (256, 1)] {
+            let cs = |b: &[u8]| domain::base::charstr::CharStr::from_octets(b.to_vec()).unwrap();
+            let naptr = |r: &str| Naptr::new(o, p, cs(b"U"), cs(b"E2U+sip"), cs(b"!^.*$!sip:info@Example.COM!"), nm(r));
+            check("NAPTR", naptr(s), naptr(&low(s)), &mut n);
+            let naptr = |r: &str| Naptr::new(o, p, cs(b""), cs(&[0xffu8; 255]), cs(b""), nm(r));
+            check("NAPTR", naptr(s), naptr(&low(s)), &mut n);
+        }
+        // IPSECKEY (RFC 4025): the gateway name is not in the RFC 4034 6.2 list: canonical form == wire form
+        for key in [&b""[..], &b"\x01\x02\x03"[..]] {
+            let alg = if key.is_empty() { 0u8 } else { 2 };
+            let x = Ipseckey::new(10, alg.into(), domain::rdata::ipseckey::IpseckeyGateway::Name(nm(s)), key.to_vec());
+            check("IPSECKEY(name)", x.clone(), x, &mut n);
+        }
         // RFC 6840 5.1: the NSEC next name and the RRSIG signer... NSEC is NOT lower-cased; RRSIG's signer is
         let mut b = RtypeBitmap::<Vec<u8>>::builder();
         for t in [Rtype::A, Rtype::from_int(255), Rtype::from_int(256), Rtype::from_int(511), Rtype::from_int(65535)] {
@@ -124,6 +145,27 @@ fn main() {
         check("SSHFP", x.clone(), x, &mut n);
         let x = Openpgpkey::new(o.to_vec());
         check("OPENPGPKEY", x.clone(), x, &mut n);
+        if o.len() >= 12 {
+            for serial in [0u32, 0x8000_0000, u32::MAX] {
+                let x = Zonemd::new(Serial(serial), 1.into(), 241.into(), o.to_vec());
+                check("ZONEMD", x.clone(), x, &mut n);
+            }
+        }
+        {
+            use domain::rdata::ipseckey::IpseckeyGateway;
+            let alg = if o.is_empty() { 0u8 } else { 1 };
+            for gw in [IpseckeyGateway::<N>::None, IpseckeyGateway::Ipv4(A::from_octets(192, 0, 2, 255)), IpseckeyGateway::Ipv6(Aaaa::from_str("2001:db8::ff00").unwrap())] {
+                let x = Ipseckey::new(255, alg.into(), gw, o.to_vec());
+                check("IPSECKEY", x.clone(), x, &mut n);
+            }
+        }
+        for tag in [&b"issue"[..], b"i", b"ISSUEWILD0"] {
+            let t = domain::rdata::caa::CaaTag::from_octets(tag.to_vec()).unwrap();
+            for flags in [0u8, 0x80, 0xff] {
+                let x = Caa::new(domain::rdata::caa::CaaFlags::new(flags), t.clone(), o.to_vec());
+                check("CAA", x.clone(), x, &mut n);
+            }
+        }
         if o.len() <= 255 {
             for it in [0u16, 1, 256] {
                 let x = Nsec3param::new(Nsec3HashAlgorithm::SHA1, (it & 1) as u8, it, Nsec3Salt::from_octets(o.to_vec()).unwrap());
